@@ -500,7 +500,7 @@ func head(h []string, n int) []string {
 func init() {
 	register(&Check{
 		ID: "C05", Level: "exploration",
-		Rule:  "per unit: 3 accounts, each issued a confirmation and a recovery token (some re-issued, superseding the first); per genuine token ~560 hostile submissions: all 512 single-bit flips of its 64 bytes, truncations to 0/1/31/32/63 bytes, extensions, broken/unpadded base64, selector/verifier splices with other accounts' tokens in both directions, every value recombined from the halves of any two mailed tokens (all ordered pairs, all four half combinations, both endpoints — must be nobody's token), the other kind's token, the stored selector/verifier strings and their bytes, random bytes, superseded tokens; then the genuine token with a weak password (nothing may change), then the genuine token (in a third of the cases with another visitor's request — some worthless but well-formed token — running to completion between two of its backend calls) — in a different base64 spelling of the same bytes in 2/3 of the cases, at age 0 / ttl-1ns / ttl+1ns / 10*ttl, with a storer that hands timestamps back in UTC or in a zone 13 h east / 11 h west / 5.5 h east of it — then replays from two browsers. Oracle per submission: accept iff decoded bytes equal a live token of that kind (and unexpired, password valid & hashable); accept must touch exactly that account's fields; reject must leave storage byte-identical. After a recovery link has run out and been refused, the owner asks for a new one while the mailer is down, and the old link is tried once more. distinct_nontrivial = distinct (kind, mutation class, ledger verdict, mode, status) signatures.",
+		Rule:  "per unit: 3 accounts, each issued a confirmation and a recovery token (some re-issued, superseding the first); per genuine token ~560 hostile submissions: all 512 single-bit flips of its 64 bytes, truncations to 0/1/31/32/63 bytes, extensions, broken/unpadded base64, selector/verifier splices with other accounts' tokens in both directions, every value recombined from the halves of any two mailed tokens (all ordered pairs, all four half combinations, both endpoints — must be nobody's token), the other kind's token, the stored selector/verifier strings and their bytes, random bytes, superseded tokens; then the genuine token with a weak password (nothing may change), then the genuine token (in a third of the cases with another visitor's request — some worthless but well-formed token — running to completion between two of its backend calls) — in a different base64 spelling of the same bytes in 2/3 of the cases, at age 0 / ttl-1ns / ttl+1ns / 10*ttl, with a storer that hands timestamps back in UTC or in a zone 13 h east / 11 h west / 5.5 h east of it — then replays from two browsers. Oracle per submission: accept iff decoded bytes equal a live token of that kind (and unexpired, password valid & hashable); accept must touch exactly that account's fields; reject must leave storage byte-identical. After a recovery link has run out and been refused, the owner asks for a new one while the mailer is down, and the old link is tried once more. In a third of the cases the owner logs in and out with the password between request and use of a recovery link: the link stays what it was. distinct_nontrivial = distinct (kind, mutation class, ledger verdict, mode, status) signatures.",
 		Units: func(t string) int { return tierN(t, 48, 2000) },
 		Run:   c05Unit,
 		Floors: func(t string) map[string]int {
